@@ -6,6 +6,7 @@ import ast
 from sa import cfg as cfgmod
 from sa import effects
 from sa import model
+from sa import norm
 from sa import universe as unimod
 from sa.model import AnalysisError
 from sa.rules import c09
@@ -334,7 +335,179 @@ def check_r04d(repo, rep):
     return n
 
 
+def check_collection_attribution(repo, rep, uni):
+    """R04e: `.name` on a collection maps `.name` over its elements: every
+    per-element result of the collection overload of `.` is the `.`
+    delegate applied to that element (no element is answered by a shortcut
+    that the single-value overloads would answer differently)."""
+    n = 0
+    for ov in uni.reg.by_name('#operator_.', 'default'):
+        fi = ov.func
+        dparam = [p.name for p in ov.params if (p.type.cls or '').endswith(
+            '.Delegate')]
+        coll = [p.name for p in ov.params if p.type.limiting]
+        if not dparam or not coll:
+            continue
+        D, C = dparam[0], coll[0]
+        leaves = []     # (element variable, expression)
+        found = False
+
+        def fn_leaves(f, arg_index=0):
+            if isinstance(f, ast.Lambda):
+                ps = [a.arg for a in f.args.args]
+                return [(ps[arg_index] if ps else None, f.body)]
+            if isinstance(f, ast.Name):
+                if f.id == D:
+                    return []
+                for g in fi.module.functions.values():
+                    if g.parent_func is fi and g.name == f.id:
+                        ps = g.params()
+                        return [(ps[arg_index] if ps else None,
+                                 norm.subst_locals(g.node, r.value))
+                                for r in model.walk_shallow(g.node)
+                                if isinstance(r, ast.Return) and
+                                r.value is not None]
+            return None
+        for x in ast.walk(fi.node):
+            if isinstance(x, ast.Call) and isinstance(
+                    x.func, ast.Name) and x.func.id == 'map' and \
+                    len(x.args) == 2 and isinstance(
+                        x.args[1], ast.Name) and x.args[1].id == C:
+                got = fn_leaves(x.args[0])
+                if got is None:
+                    raise AnalysisError('R04e: cannot read the per-element '
+                                        'function of %s' % fi.key)
+                leaves += got
+                found = True
+            elif isinstance(x, (ast.GeneratorExp, ast.ListComp)) and \
+                    isinstance(x.generators[0].iter, ast.Name) and \
+                    x.generators[0].iter.id == C and isinstance(
+                        x.generators[0].target, ast.Name):
+                leaves.append((x.generators[0].target.id, x.elt))
+                found = True
+            elif isinstance(x, ast.For) and isinstance(
+                    x.iter, ast.Name) and x.iter.id == C and isinstance(
+                    x.target, ast.Name):
+                for y in ast.walk(x):
+                    if isinstance(y, ast.Yield) and y.value is not None:
+                        leaves.append((x.target.id, norm.subst_locals(
+                            fi.node, y.value)))
+                        found = True
+        if not found:
+            raise AnalysisError('R04e: no per-element mapping found in %s'
+                                % fi.key)
+        n += 1
+        bad = []
+        flat = []
+        for var, e in leaves:
+            st = [e]
+            while st:
+                y = st.pop()
+                if isinstance(y, ast.IfExp):
+                    st += [y.body, y.orelse]
+                else:
+                    flat.append((var, y))
+        for var, e in flat:
+            ok = isinstance(e, ast.Call) and isinstance(
+                e.func, ast.Name) and e.func.id == D and e.args and \
+                isinstance(e.args[0], ast.Name) and e.args[0].id == var
+            if not ok:
+                bad.append(e)
+        rep.ob('R04e', fi.key + '/maps-the-delegate', not bad,
+               '`collection.name` must be `.name` of every element, i.e. '
+               'the `.` delegate `%s` applied to the element; %s answers an '
+               'element with `%s`, which need not be what the single-value '
+               'overloads of `.` give (missing key, yaqlized object, '
+               'host-overridden `.`)' % (
+                   D, fi.qualname, model.norm(bad[0]) if bad else ''),
+               loc=fi.module.loc(bad[0] if bad else fi.node),
+               construct=model.norm(bad[0]) if bad else '')
+    rep.floor('collection overloads of the member operator', n, 1)
+
+
+def _names_given_oracle(names):
+    """Truth of a test under "the caller passed at least one name"."""
+    def o(e):
+        if isinstance(e, ast.Name) and e.id == names:
+            return True
+        if isinstance(e, ast.Compare):
+            def val(x, k):
+                if isinstance(x, ast.Constant) and isinstance(
+                        x.value, int):
+                    return x.value
+                if isinstance(x, ast.Call) and isinstance(
+                        x.func, ast.Name) and x.func.id == 'len' and \
+                        len(x.args) == 1 and isinstance(
+                            x.args[0], ast.Name) and x.args[0].id == names:
+                    return k
+                return None
+            res = set()
+            for k in (1, 2, 7):
+                seq = [val(x, k) for x in [e.left] + e.comparators]
+                if any(v is None for v in seq):
+                    return None
+                ok = True
+                for op, a, b in zip(e.ops, seq, seq[1:]):
+                    r = {ast.Gt: a > b, ast.GtE: a >= b, ast.Lt: a < b,
+                         ast.LtE: a <= b, ast.Eq: a == b,
+                         ast.NotEq: a != b}.get(type(op))
+                    if r is None:
+                        return None
+                    ok = ok and r
+                res.add(ok)
+            return res.pop() if len(res) == 1 else None
+        return None
+    return o
+
+
+def check_named_unpack_binds_names_only(repo, rep):
+    """R04f: `seq.unpack(a, b)` binds exactly $a and $b.  A store under a
+    positional key ($1, $2 ... and with them `$`) in that case shadows the
+    `$` of the enclosing lambda and the positional variables of enclosing
+    with()/let(): positional stores -- made by unpack itself or by a
+    positional binder it hands its context to -- are reachable only when no
+    names were given."""
+    mod = repo.module('yaql.standard_library.system')
+    fi = mod.functions.get('unpack')
+    if fi is None or fi.node.args.vararg is None:
+        raise AnalysisError('anchor vanished: system.unpack(*names)')
+    names = fi.node.args.vararg.arg
+
+    def positional_stores(f):
+        out = []
+        for w in effects.writes_in(f.node):
+            if w.kind == 'subscript' and isinstance(w.key, ast.Call) and \
+                    isinstance(w.key.func, ast.Name) and \
+                    w.key.func.id == 'str':
+                out.append(w.node)
+        return out
+    writers = {f.name for f in mod.functions.values()
+               if f.parent_func is None and f is not fi and
+               positional_stores(f)}
+    sites = list(positional_stores(fi))
+    for c in model.calls_in(fi.node):
+        if isinstance(c.func, ast.Name) and c.func.id in writers:
+            sites.append(c)
+    rep.floor('positional binders in system.py', len(writers), 2)
+    if not sites:
+        raise AnalysisError('anchor vanished: positional stores of unpack')
+    o = _names_given_oracle(names)
+    for sx in sites:
+        ok = not norm.reachable_under(sx, fi.node, o)
+        rep.ob('R04f', '%s/positional-store[%s]' % (
+            fi.key, model.norm(sx).split('\n')[0][:40]), ok,
+            'unpack(%s...) with names given must bind only those names; '
+            'this positional binding ($1, $2 ... and so `$`) is also made '
+            'when names are given and shadows the `$` / $1..$n of the '
+            'enclosing lambda, with() or let()' % names,
+            loc=mod.loc(sx), construct=model.norm(sx).split('\n')[0])
+
+
 def run(repo, rep):
+    rep.rule('R04e', 'COLLECTION-MEMBER-IS-A-MAP: the collection overload '
+             'of `.` answers every element through the `.` delegate')
+    rep.rule('R04f', 'NAMED-UNPACK-BINDS-NAMES-ONLY: positional stores of '
+             'unpack are unreachable when names are given')
     rep.rule('R04a', 'CALL-IN-FRESH-CHILD: get_delegate converts arguments '
              'and runs the payload in context.create_child_context() '
              'created inside the thunk, per invocation')
@@ -359,6 +532,9 @@ def run(repo, rep):
     check_r04b(repo, rep)
     check_r04c(repo, rep)
     n = check_r04d(repo, rep)
+    from sa import universe as _u
+    check_collection_attribution(repo, rep, _u.Universe(repo))
+    check_named_unpack_binds_names_only(repo, rep)
     # R04e: bindings shadow, missing is null, `$` is `$1` -- the context
     # classes' clauses (decided by C17's rules, repeated here because the
     # statement of C04 names them)
